@@ -400,6 +400,32 @@ DATA = (str, bytes, list, tuple, dict, set, frozenset, yutils.FrozenDict,
         int)
 
 
+def _own_size(v):
+    """own size of a data value; a frozen dictionary is the table it wraps
+    (the wrapper object alone is 48 bytes whatever it holds), measured on a
+    plain dict of the same items so as not to depend on yaql's accounting"""
+    if isinstance(v, yutils.FrozenDict):
+        return sys.getsizeof(dict(v.items()), 0)
+    return sys.getsizeof(v, 0)
+
+
+class _Counting:
+    """one-shot source of the integers 1..total that counts its pulls"""
+
+    def __init__(self, total):
+        self.total = total
+        self.pulled = 0
+
+    def __iter__(self):
+        return self
+
+    def __next__(self):
+        if self.pulled >= self.total:
+            raise StopIteration()
+        self.pulled += 1
+        return self.pulled
+
+
 def _quota_ctx():
     if 'ctx' not in _Q:
         _Q['seen'] = []
@@ -407,11 +433,11 @@ def _quota_ctx():
         def on_enter(d, a, kw):
             for v in list(a) + list(kw.values()):
                 if isinstance(v, DATA):
-                    _Q['seen'].append((d.fd.name, sys.getsizeof(v, 0),
+                    _Q['seen'].append((d.fd.name, _own_size(v),
                                        type(v).__name__))
 
         def on_return(d, r):
-            _Q['ret'] = (d.fd.name, sys.getsizeof(r, 0), type(r).__name__)
+            _Q['ret'] = (d.fd.name, _own_size(r), type(r).__name__)
         _Q['ctx'] = W.wrapped_context(on_enter, on_return)
     return _Q['ctx']
 
@@ -450,6 +476,49 @@ QUOTA_TEMPLATES = {
     'groupBy': ('range($m).groupBy($).toList()',
                 lambda c: _list_size(c['m'])),
     'memorize': ('range($m).memorize().len()', lambda c: _list_size(c['m'])),
+    # a remembered collection that is read a second time, further than the
+    # first time
+    'memorize-second-pass': ('let(c => range($m).memorize()) -> '
+                             '[$c.first(), $c.len()]',
+                             lambda c: _list_size(c['m'])),
+    'memorize-take-then-all': ('let(c => range($m).memorize()) -> '
+                               '($c.take(3).len() + $c.len())',
+                               lambda c: _list_size(c['m'])),
+    'defaultIfEmpty-all': ('range($m).defaultIfEmpty([1]).len()',
+                           lambda c: _list_size(c['m'])),
+    'assert-then-all': ('range($m).assert($.first() >= 0).len()',
+                        lambda c: _list_size(c['m'])),
+    # dictionaries that are consumed by another function instead of being
+    # returned
+    'toDict-consumed': ('range($m).toDict($, $).len()',
+                        lambda c: 64 + 36 * c['m']),
+    'toDict-in-let': ('let(d => range($m).toDict($, $)) -> $d.get(1)',
+                      lambda c: 64 + 36 * c['m']),
+    'concat-dicts-consumed': ('(dict(range($m).select([$, $])) + '
+                              'dict(range($m, 2 * $m).select([$, $]))).len()',
+                              lambda c: 64 + 72 * c['m']),
+    # accumulation from a counting source of Q/4 items (no iterator limit):
+    # the functions that check the quota per step stop pulling when what
+    # they hold no longer fits - a container of k items is at least 8k bytes
+    'pulls-toDict': ('$src.toDict($, $).len()', lambda c: 2 * c['q']),
+    'pulls-toDict-key': ('$src.toDict($).containsKey(-1)',
+                         lambda c: 2 * c['q']),
+    'pulls-toDict-nested': ('[1, $src.toDict($, $)]', lambda c: 2 * c['q']),
+    'pulls-distinct': ('$src.distinct().len()', lambda c: 2 * c['q']),
+    'pulls-groupBy': ('$src.groupBy($).len()', lambda c: 2 * c['q']),
+    'pulls-memorize': ('$src.memorize().len()', lambda c: 2 * c['q']),
+    # two dictionaries that each fit; their union does not
+    'dict-plus-consumed': ('($hd1 + $hd2).len()',
+                           lambda c: sys.getsizeof(dict(
+                               list(c['hd1'].items()) +
+                               list(c['hd2'].items())))),
+    'dict-plus-in-let': ('let(d => $hd1 + $hd2) -> $d.containsKey(1)',
+                         lambda c: sys.getsizeof(dict(
+                             list(c['hd1'].items()) +
+                             list(c['hd2'].items())))),
+    'dict-set-consumed': ('dict(range($m).select([$, $])).set(-1, 1)'
+                          '.set(-2, 2).keys().len()',
+                          lambda c: 64 + 36 * c['m']),
     'generate': ('generate(0, $ < $m, $ + 1).toList()',
                  lambda c: _list_size(c['m'])),
     'concat-dicts': ('dict(range($m).select([$, $])) + {x => 1}',
@@ -512,7 +581,7 @@ def _largest_own_size(x, depth=0):
     result"""
     best = (0, '-', depth)
     if isinstance(x, DATA) and not isinstance(x, bool):
-        best = (sys.getsizeof(x, 0), type(x).__name__, depth)
+        best = (_own_size(x), type(x).__name__, depth)
     if depth < 30:
         kids = []
         if isinstance(x, (dict, yutils.FrozenDict)):
@@ -544,8 +613,18 @@ def check_quota(run, case):
     c['f1'] = 'y' * (total // 2)
     c['f2'] = 'z' * (total - total // 2)
     c['f3'] = 'w' * max(q - 49 - 8, 1)
+    k = 1
+    while _own_size(yutils.FrozenDict(
+            (i, i) for i in range(k + 1))) <= q and k < 5000:
+        k += 1
+    c['hd1'] = yutils.FrozenDict((i, i) for i in range(k))
+    c['hd2'] = yutils.FrozenDict((i, i) for i in range(k, 2 * k))
     predicted = predict(c)
     ctx = _quota_ctx().create_child_context()
+    ctx['$hd1'] = c['hd1']
+    ctx['$hd2'] = c['hd2']
+    src = _Counting(max(q // 4, 64))
+    ctx['$src'] = src
     for k in ('s', 'n', 'd', 'm'):
         if k in case:
             ctx['$' + k] = case[k]
@@ -610,7 +689,9 @@ def check_quota(run, case):
                         '%s under memoryQuota=%d: peak allocation %d bytes '
                         'before MemoryQuotaExceededException' % (
                             text, q, peak), input_class=name)
-    if name in ('join-lazy-inner', 'memorize') and \
+    if name in ('join-lazy-inner', 'memorize', 'memorize-second-pass',
+                'memorize-take-then-all', 'defaultIfEmpty-all',
+                'assert-then-all') and \
             predicted > 2 * q + 1024 and not (
             out[0] == 'exc' and isinstance(
                 out[1], yexc.MemoryQuotaExceededException)):
@@ -620,6 +701,22 @@ def check_quota(run, case):
                         text, q, predicted, _short(out[1])),
                     exc=out[1] if out[0] == 'exc' else None,
                     input_class=name)
+        return
+    if name.startswith('pulls-'):
+        if not (out[0] == 'exc' and isinstance(
+                out[1], yexc.MemoryQuotaExceededException)):
+            run.violate('accumulation-over-quota-not-refused', case,
+                        '%s under memoryQuota=%d over %d items -> %s' % (
+                            text, q, src.total, _short(out[1])),
+                        exc=out[1] if out[0] == 'exc' else None,
+                        input_class=name)
+        elif src.pulled > q // 8 + 16:
+            run.violate('accumulated-past-quota-before-refusing', case,
+                        '%s under memoryQuota=%d pulled %d items before '
+                        'MemoryQuotaExceededException (a container of %d '
+                        'items is at least %d bytes)' % (
+                            text, q, src.pulled, src.pulled, 8 * src.pulled),
+                        input_class=name)
         return
     if name in ('plus-fits', 'plus-empty') and out[0] == 'exc' and \
             isinstance(out[1], yexc.MemoryQuotaExceededException):
@@ -634,7 +731,9 @@ def check_quota(run, case):
             out[0] == 'exc' and isinstance(
             out[1], yexc.MemoryQuotaExceededException) and \
             name not in ('toDict', 'toSet', 'concat-dicts', 'groupBy',
-                         'distinct', 'memorize', 'join', 'generate'):
+                         'distinct', 'memorize', 'join', 'generate') and \
+            'memorize-' not in name and '-all' not in name and \
+            '-consumed' not in name and '-in-let' not in name:
         run.violate('refused-although-far-below-quota', case,
                     '%s under memoryQuota=%d (predicted own size %d) raised '
                     'MemoryQuotaExceededException' % (text, q, predicted),
